@@ -16,7 +16,9 @@ VALID = [
 ]
 
 NUMS = ["-1", "-0", "+5", "0", "00", "4000000000", "4000000000000000", "9223372036854775807", "9223372036854775808", "99999999999999999999", "1e3", "0x10", " 7", "7 ", "", "abc", "2147483648"]
-HOSTS = ["[", "]", "[]", "[[", "[::1]", "[::1", "::1]", "", ":", "a:b:c", "h:", "h:x", "h:99999999999999999999", "h:-1", "h:0", "x" * 5000, "\x00", "%s%n", "h h"]
+HOSTS = ["[", "]", "[]", "[[", "[::1]", "[::1", "::1]", "", ":", "a:b:c", "h:", "h:x", "h:99999999999999999999", "h:-1", "h:0", "x" * 5000, "\x00", "%s%n", "h h",
+         # the sender's own address (a host the listener has just learned) with ports no socket address can have
+         "127.0.2.1:70000", "127.0.2.1:-1", "127.0.2.1:65536", "127.0.2.1:0", "127.0.2.1:99999999999"]
 
 def mutate(g, m):
     k = g.rint(0, 13)
